@@ -29,6 +29,8 @@ def canon_event(world, ev):
                 return (ev[0], i)
     if ev[0] == 'expire':
         return (ev[0], ev[1], 'spi', ev[3])
+    if ev[0] == 'redeliver' and world.sent_log is not None:
+        return (ev[0], repr(dgram_sortkey(world.sent_log[ev[1]])[:-1]))      # by content kind, not by position in the log
     return ev
 
 
